@@ -164,4 +164,6 @@ def run_all(scs, nbr_limit, rng, procs=16):
     return jobs, results
 
 
-LEDGER_CFG = "CONSTANTS\n  Ds = {}\n  Ts = {}\nSPECIFICATION TraceSpec\nCONSTRAINT Marker\nPOSTCONDITION Post\nCHECK_DEADLOCK FALSE\n"
+LEDGER_CFG = "CONSTANTS\n  Ds = {}\n  Ts = {}\n  Strict = TRUE\nSPECIFICATION TraceSpec\nCONSTRAINT Marker\nPOSTCONDITION Post\nCHECK_DEADLOCK FALSE\n"
+
+LEDGER_CFG_LENIENT = LEDGER_CFG.replace("Strict = TRUE", "Strict = FALSE")
